@@ -27,6 +27,10 @@ pub fn templates() -> Vec<(&'static str, Vec<u8>)> {
         ("AUTH-EXT-uid", format!("AUTH EXTERNAL {}", hex(&UID.to_string())).into_bytes()),
         ("AUTH-EXT-other", format!("AUTH EXTERNAL {}", hex("4242")).into_bytes()),
         ("AUTH-EXT-nonnumeric", format!("AUTH EXTERNAL {}", hex("root")).into_bytes()),
+        // identities whose decoded bytes are not UTF-8 (alone, and behind the right uid)
+        ("AUTH-EXT-nonutf8-id", b"AUTH EXTERNAL ff".to_vec()),
+        ("AUTH-EXT-uid-then-ff", format!("AUTH EXTERNAL {}ff", hex(&UID.to_string())).into_bytes()),
+        ("DATA-nonutf8-id", b"DATA fffe".to_vec()),
         ("AUTH-EXT-badhex", b"AUTH EXTERNAL 3g".to_vec()),
         ("AUTH-EXT-oddhex", b"AUTH EXTERNAL 313".to_vec()),
         ("AUTH-ANON", b"AUTH ANONYMOUS".to_vec()),
